@@ -195,7 +195,11 @@ func C08(c *ev.Ctx) {
 			}
 		}
 	}
-	dirs := [][]string{{"u1", "sub.dir/u2", "trusted_u3"}, {"a-b/u1", "u2", "x.y-z/u3"}, {"u1", "trusted_u2", "dash-ed/u3"}}
+	dirs := [][]string{{"u1", "sub.dir/u2", "trusted_u3"}, {"a-b/u1", "u2", "x.y-z/u3"}, {"u1", "trusted_u2", "dash-ed/u3"},
+		// sibling paths whose order as Go paths differs from the order of their mapped Coq names ('-' < '/' but '.' < '_')
+		{"a-b/u1", "a/u2", "a.b/u3"},
+		// a directory (not the package) named trusted_*: only the LAST element decides the trusted namespace
+		{"trusted_x/u1", "u2", "trusted_y/trusted_u3"}}
 	mk := func(n int, pick func(opts int) int) c08Case {
 		cs := c08Case{groveDep: pick(2) == 1}
 		dset := dirs[pick(len(dirs))]
